@@ -17,7 +17,8 @@ from allmydata.interfaces import RIStorageServer, IStatsProducer
 from allmydata.util import fileutil, idlib, log, time_format
 import allmydata # for __full_version__
 
-from allmydata.storage.common import si_b2a, si_a2b, storage_index_to_dir
+from allmydata.storage.common import si_b2a, si_a2b, storage_index_to_dir, \
+     DataTooLargeError
 _pyflakes_hush = [si_b2a, si_a2b, storage_index_to_dir] # re-exported
 from allmydata.storage.lease import LeaseInfo
 from allmydata.storage.mutable import MutableShareFile, EmptyShare, \
@@ -580,6 +581,19 @@ class StorageServer(service.MultiService):
             after applying the vectors.
         """
         remaining_shares = {}
+
+        # Validate the size of every write vector that is going to be applied
+        # before touching any share.  Otherwise an over-sized vector would
+        # only be noticed by MutableShareFile._change_container_size after
+        # earlier vectors (possibly for other shares) had already been
+        # written, leaving the request partially applied.
+        for sharenum in test_and_write_vectors:
+            (testv, datav, new_length) = test_and_write_vectors[sharenum]
+            if new_length == 0:
+                continue
+            for (offset, data) in datav:
+                if offset + len(data) > MutableShareFile.MAX_SIZE:
+                    raise DataTooLargeError()
 
         for sharenum in test_and_write_vectors:
             (testv, datav, new_length) = test_and_write_vectors[sharenum]
